@@ -1,6 +1,6 @@
 (* Model of util::Criteria<String> (util/mod.rs): the BTreeMap key of the ordered buffer.
    A key vector is compared column by column; the column's comparison is chosen by the type
-   of the ordering expression (numeric: parse_filesize(..).unwrap_or(0); datetime:
+   of the ordering expression (numeric: whole numbers exactly, otherwise the f64 value; datetime:
    parse_datetime(..).unwrap_or(1970-01-01).0; otherwise the strings themselves), reversed
    for `desc`; the first non-equal column decides, then the vector lengths. *)
 From Coq Require Import List NArith ZArith Bool.
@@ -10,12 +10,12 @@ Import ListNotations.
 Inductive kind := KNum | KDate | KStr.
 
 Section Crit.
-Variable numkey : str -> N.      (* parse_filesize(s).unwrap_or(0) *)
+Variable numkey : str -> Z.      (* the numeric reading of a key text: whole numbers of either sign exactly (i128), see numkey_int *)
 Variable datekey : str -> Z.     (* parse_datetime(s).unwrap_or((epoch, epoch)).0, in seconds *)
 
 Definition base_cmp (k : kind) (a b : str) : comparison :=
   match k with
-  | KNum => N.compare (numkey a) (numkey b)
+  | KNum => Z.compare (numkey a) (numkey b)
   | KDate => Z.compare (datekey a) (datekey b)
   | KStr => str_compare a b
   end.
@@ -31,7 +31,7 @@ Definition crit_le (ks : list (kind * bool)) (a b : list str) : bool := lex_le (
 Lemma good_base k : good (base_cmp k).
 Proof.
   destruct k; unfold base_cmp.
-  - apply (good_image numkey N.compare good_N).
+  - apply (good_image numkey Z.compare good_Z).
   - apply (good_image datekey Z.compare good_Z).
   - apply good_str.
 Qed.
@@ -54,4 +54,7 @@ End Crit.
    decimal digit strings for numeric keys.  The general numeric key is
    Size.parse_filesize(..).unwrap_or(0); on plain digit strings below 2^64 they coincide. *)
 From FS Require Import lib.Dec.
-Definition numkey_digits (x : str) : N := match parse_u64 x with Some n => n | None => 0%N end.
+(* whole numbers of either sign, as cmp_at_numbers reads them when both keys parse as i128 (after fix 13b36fe);
+   a text that is not a whole number (a fraction, a formatted size) is compared by its f64 value in the source and
+   is outside this key function (0) *)
+Definition numkey_digits (x : str) : Z := match parse_signed 170141183460469231731687303715884105728%Z x with Some z => z | None => 0%Z end.
